@@ -45,6 +45,9 @@ func cliWarrior(rng *rand.Rand, maxLen int, legacy bool) []byte {
 }
 
 var knownWarriors = []string{
+	"jmp -1\ndat 0\n",
+	"mov -1, -2\njmp -1\n",
+	"spl 0\nmov -1, <-3\njmp -2\n",
 	"mov 0, 1\n",
 	"spl 0\njmp -1\n",
 	"add #4, 3\nmov 2, @2\njmp -2\ndat #0, #0\n",
@@ -72,6 +75,9 @@ func genCLI(out *bufio.Writer, rng *rand.Rand, count int) int {
 		size := 3*ln + 1 + rng.Intn(300)
 		if rng.Intn(6) == 0 {
 			size = 3*ln + 1 // boundary of the precondition
+		}
+		if rng.Intn(5) == 0 {
+			size = []int{4001, 5000, 8192, 8000, 12000, 20000}[rng.Intn(6)] // well above and around the preset sizes
 		}
 		procs := 1 + rng.Intn(12)
 		if rng.Intn(5) == 0 {
